@@ -13,11 +13,37 @@ Definition struct_pat_ok (decl names : list string) (rest : bool) : bool :=
 
 (* `P(p1, .., pn)` with no `..` inside against a variant / tuple struct of `arity` fields (E0023) *)
 Definition variant_pat_ok (arity : nat) (sub_patterns : nat) : bool := Nat.eqb arity sub_patterns.
-(* `(p1, .., pn)` against a tuple of `arity` fields (E0308).  One written element is lowered to `(p1)`,
-   which Rust reads as a parenthesised pattern, not as a 1-tuple pattern: it imposes no arity, exactly
-   as `let (x) = v;` does in Rust itself (observation O16 in DESIGN.md) *)
-Definition tuple_pat_ok (arity : nat) (sub_patterns : nat) : bool :=
-  if Nat.eqb sub_patterns 1 then true else Nat.eqb arity sub_patterns.
+(* `(p1, .., pn)` against a tuple of `arity` fields (E0308) *)
+Definition tuple_pat_ok (arity : nat) (sub_patterns : nat) : bool := Nat.eqb arity sub_patterns.
+
+(* How Rust reads what stands between the parentheses of `( ... )` in pattern position, for items that are single tokens
+   (the bindings `__tuple_elem_i` and `_` the expansion writes there): nothing is the unit pattern; ONE item WITHOUT a trailing
+   comma is a parenthesised pattern, not a tuple pattern (it imposes no shape at all: `let (x) = v;`); anything else is a
+   tuple pattern with one sub-pattern per item.  [tuple_items] returns the number of items and whether the last one is followed
+   by a comma; None = not a well-formed item list. *)
+Definition is_comma (t : tok) : bool := match t with TPunct c _ _ => Ascii.eqb c "," | _ => false end.
+Fixpoint tuple_items (ts : list tok) : option (nat * bool) :=
+  match ts with
+  | [] => Some (0, true)
+  | x :: r =>
+      if is_comma x then None
+      else match r with
+           | [] => Some (1, false)
+           | c :: r' =>
+               if is_comma c
+               then match tuple_items r' with
+                    | Some (n, tr) => Some (S n, match r' with [] => true | _ => tr end)
+                    | None => None
+                    end
+               else None
+           end
+  end.
+Definition rust_tuple_arity (ts : list tok) : option nat :=
+  match tuple_items ts with
+  | Some (1, false) => None
+  | Some (n, _) => Some n
+  | None => None
+  end.
 
 (* the field names / rest flag / positional arity of the native pattern a statement destructures with *)
 Definition lowered_struct (s : stmt) : option (list string * bool) :=
